@@ -536,6 +536,12 @@ def r9_key_domains_agree(ctx, res):
     key_domains_agree(ctx, res)
 
 
+def r10_default_expand_from_the_selection_only(ctx, res):
+    """what a restricted Wordnet borrows from is derived from the lexicons it SELECTS: the default expand set is the installed
+    declared dependencies of exactly those (C12-R4) - not of their extensions or bases, whose presence must not change results."""
+    from .c12 import r4_default_expand
+    r4_default_expand(ctx, res)
+
 RULES = [
     ('C04-R1', r1_sql_scoping, 40),
     ('C04-R2', r2_callsite_provenance, 30),
@@ -546,4 +552,5 @@ RULES = [
     ('C04-R7', r7_wordnet_handed_on, 12),
     ('C04-R8', r8_rows_owned_by_the_lexicon_being_added, 12),
     ('C04-R9', r9_key_domains_agree, 300),
+    ('C04-R10', r10_default_expand_from_the_selection_only, 5),
 ]
